@@ -76,7 +76,7 @@ func blastMain(args mon.Args, prop string) {
 	if prop == "C01" {
 		nProc = run.Pick(2, 10)
 	}
-	var totalSent, totalPub, totalDrops, exactFed, backlogFed int64
+	var totalSent, totalPub, totalDrops, exactFed, backlogFed, redefFed int64
 	for pi := 0; pi < nProc; pi++ {
 		g := mon.NewRNG(run.Seed, "blast-"+prop, pi)
 		pdir := filepath.Join(dir, fmt.Sprintf("blast%d", pi))
@@ -311,6 +311,45 @@ func blastMain(args mon.Args, prop string) {
 					feed(e, tr.Data(e, id+1, k%2 == 0), "data")
 				}
 			}
+			// every exporter now redefines its templates (same ids, new fields) while the workers that decoded the
+			// earlier data are still alive; once the redefinitions are decoded, data follows. Each message must be
+			// decoded with the definition in force, whichever worker picks it up and whatever that worker saw before.
+			if (proto == "ipfix" || proto == "nf9") && prop != "C01" {
+				quiet := func() {
+					for w, okN := 0, 0; w < 1500 && okN < 5 && col.alive(); w++ {
+						fl, ok := flowOK()
+						if ok && fl[protoNames[proto].js]["UDPQueue"] == 0 && int(fl[protoNames[proto].js]["UDPCount"])+int(kernelDrops(map[int]bool{ports[proto]: true})) >= sentPer[proto] {
+							okN++
+						} else {
+							okN = 0
+						}
+						time.Sleep(3 * time.Millisecond)
+					}
+				}
+				// first every worker decodes data of ONE (exporter, template): whatever a worker remembers from its last
+				// datagram is that pair when the redefinition arrives
+				for k := 0; k < 8*workers+8; k++ {
+					feed(exps[0], tr.DataOf(exps[0], id+1, false, 0), "data (one exporter, one template)")
+				}
+				quiet()
+				tr2 := pipe.NewTraffic(g, proto, len(exps), udpSize, snapE, true, false, exps...)
+				// ONE datagram carries the redefinition, so one worker sees it: all the others must still decode the data
+				// that follows with the new definition (a worker that went by what it remembered would not)
+				feed(exps[0], tr2.TplDgrams[mon.Hex(exps[0])], "templates of one exporter redefined")
+				quiet()
+				for k := 0; k < 8*workers+8; k++ {
+					feed(exps[0], tr2.DataOf(exps[0], id+1, false, 0), "data of the pair every worker decoded last, after its redefinition")
+				}
+				for k := 0; k < run.Pick(200, 2000); k++ {
+					e := exps[g.Intn(len(exps))]
+					if k%3 == 0 {
+						feed(exps[0], tr2.Data(exps[0], id+1, k%2 == 0), "data after the redefinition")
+					} else {
+						feed(e, tr.Data(e, id+1, k%2 == 0), "data")
+					}
+				}
+				redefFed++
+			}
 		}
 		// quiescence: the collector's counters stop moving and account for everything sent
 		var fl flowStats
@@ -509,6 +548,7 @@ func blastMain(args mon.Args, prop string) {
 	run.Set("datagrams_sent_over_udp", totalSent)
 	run.Set("datagrams_exactly_filling_the_receive_buffer", exactFed)
 	run.Set("datagrams_sent_as_backlog_bursts_to_a_single_worker", backlogFed)
+	run.Set("template_redefinitions_between_two_data_phases", redefFed)
 	run.Set("messages_at_the_sink", totalPub)
 	run.Set("kernel_drops", totalDrops)
 	run.Set("collector_processes", nProc)
